@@ -42,6 +42,7 @@ structure ExprOK (m : ExprMap) : Prop where
   handlerTy : ∀ ty, excKind (mapO m.e ty) = excKind ty
   debugKeep : ∀ e, isDebugTest e = true → isDebugTest (m.e e) = true
   debugNew : ∀ s e, isDebugTest e = false → isDebugTest (m.e e) = true → evalE s e = none
+  core : ∀ e, coreE (m.e e) = coreE e
 
 theorem evalArgs_map (m : ExprMap) (h : ExprOK m) (s : St) : ∀ args : List Expr,
     evalArgs s args ≠ none → evalArgs s (args.map m.e) = evalArgs s args
@@ -290,6 +291,106 @@ theorem globals_mapBody (m : ExprMap) : ∀ b, declaredGlobals (mapBody m b) = d
   | [] => rfl
   | st :: rest => by simp [mapBody, declaredGlobals, globalsOf_mapStmt, globals_mapBody m rest]
 
+theorem forRange_eq (tg it : Expr) :
+    forRange tg it = (match nameOf tg, asNameCall it with
+      | some (x, _), some (f, _, [e]) => if f == "range" then some (x, e) else none
+      | _, _ => none) := by
+  cases tg <;> cases it <;> try rfl
+  rename_i x c f args kws
+  cases f <;> try rfl
+  cases kws with
+  | cons k ks =>
+    match args with
+    | [] => rfl
+    | [e] => rfl
+    | _ :: _ :: _ => rfl
+  | nil =>
+    match args with
+    | [] => rfl
+    | [e] => rfl
+    | _ :: _ :: _ => rfl
+
+theorem forRange_map (m : ExprMap) (h : ExprOK m) (tg it : Expr) :
+    forRange (m.e tg) (m.e it) = (forRange tg it).map (fun p => (p.1, m.e p.2)) := by
+  rw [forRange_eq, forRange_eq, nameOf_map m h tg, asNameCall_map m h it]
+  cases nameOf tg with
+  | none => rfl
+  | some p =>
+    obtain ⟨x, c⟩ := p
+    cases asNameCall it with
+    | none => rfl
+    | some q =>
+      obtain ⟨f, c2, args⟩ := q
+      match args with
+      | [] => rfl
+      | [e] => simp only [Option.map_some, List.map]; split <;> rfl
+      | _ :: _ :: _ => rfl
+
+/-! ### the bound names of a function body survive an expression map -/
+
+theorem coreX_eq (e : Expr) : coreX e = (match asNameCall e with | some p => p.2.2.all coreE | none => coreE e) := by
+  unfold coreX asNameCall
+  split <;> simp_all
+
+theorem all_core_map (m : ExprMap) (h : ExprOK m) : ∀ args : List Expr, (args.map m.e).all coreE = args.all coreE
+  | [] => rfl
+  | e :: es => by simp only [List.map, List.all_cons, h.core, all_core_map m h es]
+
+theorem coreX_map (m : ExprMap) (h : ExprOK m) (e : Expr) : coreX (m.e e) = coreX e := by
+  rw [coreX_eq, coreX_eq, asNameCall_map m h e]
+  cases asNameCall e with
+  | none => exact h.core e
+  | some p => simp only [Option.map_some]; exact all_core_map m h p.2.2
+
+mutual
+theorem bindS_map (m : ExprMap) (h : ExprOK m) : ∀ st : Stmt, bindS (mapStmt m st) = bindS st
+  | .functionDef .. => by simp [mapStmt, bindS]
+  | .classDef .. => by simp [mapStmt, bindS]
+  | .return_ v => by cases v <;> simp [mapStmt, mapO, bindS, h.core]
+  | .delete _ => by simp [mapStmt, bindS]
+  | .assign ts v => by simp only [mapStmt, bindS, assignTarget_map m h ts, coreX_map m h v]
+  | .typeAlias .. => by simp [mapStmt, bindS]
+  | .augAssign tg op v => by simp only [mapStmt, bindS, nameOf_map m h tg, h.core]
+  | .annAssign .. => by simp [mapStmt, bindS]
+  | .for_ a tg it body orelse => by
+    cases a
+    · simp only [mapStmt, bindS, forRange_map m h tg it, bindL_map m h body, bindL_map m h orelse]
+      cases forRange tg it with
+      | none => rfl
+      | some p => simp only [Option.map_some, h.core]
+    · simp [mapStmt, bindS]
+  | .while_ c body orelse => by simp only [mapStmt, bindS, h.core, bindL_map m h body, bindL_map m h orelse]
+  | .if_ c body orelse => by simp only [mapStmt, bindS, h.core, bindL_map m h body, bindL_map m h orelse]
+  | .with_ .. => by simp [mapStmt, bindS]
+  | .match_ .. => by simp [mapStmt, bindS]
+  | .raise_ e c => by simp only [mapStmt, bindS, raiseName_map m h e c]
+  | .try_ st body hs orelse fin => by
+    cases st
+    · simp only [mapStmt, bindS, bindL_map m h body, bindH_map m h hs, bindL_map m h orelse, bindL_map m h fin]
+    · simp [mapStmt, bindS]
+  | .assert_ c msg => by cases msg <;> simp [mapStmt, mapO, bindS, h.core]
+  | .import_ _ => by simp [mapStmt]
+  | .importFrom .. => by simp [mapStmt]
+  | .global _ => by simp [mapStmt]
+  | .nonlocal _ => by simp [mapStmt]
+  | .expr v => by simp only [mapStmt, bindS, coreX_map m h v]
+  | .pass => by simp [mapStmt]
+  | .break_ => by simp [mapStmt]
+  | .continue_ => by simp [mapStmt]
+theorem bindL_map (m : ExprMap) (h : ExprOK m) : ∀ b : List Stmt, bindL (mapBody m b) = bindL b
+  | [] => by simp [mapBody]
+  | st :: rest => by simp only [mapBody, bindL, bindS_map m h st, bindL_map m h rest]
+theorem bindH_map (m : ExprMap) (h : ExprOK m) : ∀ hs : List Handler, bindH (mapHandlers m hs) = bindH hs
+  | [] => by simp [mapHandlers]
+  | .mk ty nm body :: rest => by simp only [mapHandlers, bindH, h.handlerTy, bindL_map m h body, bindH_map m h rest]
+end
+
+theorem bindTop_map (m : ExprMap) (h : ExprOK m) : ∀ b : List Stmt, bindTop (mapBody m b) = bindTop b
+  | [] => by simp [mapBody]
+  | st :: rest => by
+    have hs := bindS_map m h st
+    cases st <;> simp only [mapBody, mapStmt, bindTop, bindTop_map m h rest] <;> simp only [mapStmt] at hs <;> rw [hs]
+
 /-- the refinement claim at one fuel level -/
 def GoodM (o : Bool) (m : ExprMap) (ft : FTab) (n : Nat) : Prop :=
   (∀ s st, Res.le (exec1 ⟨ft, o⟩ n s st) (exec1 ⟨mapFT m ft, o⟩ n s (mapStmt m st))) ∧
@@ -311,7 +412,11 @@ theorem callFn_le (m : ExprMap) (h : ExprOK m) (ft : FTab) (n : Nat) (ih : ∀ k
       | none => left; rfl
       | some pb =>
         obtain ⟨ps, b⟩ := pb
-        simp only [Option.map_some]
+        simp only [Option.map_some, bindTop_map m h b]
+        cases bindTop b with
+        | none => left; rfl
+        | some bound =>
+        simp only
         cases n with
         | zero => right; rfl
         | succ k =>
@@ -319,7 +424,7 @@ theorem callFn_le (m : ExprMap) (h : ExprOK m) (ft : FTab) (n : Nat) (ih : ∀ k
           split
           · right; rfl
           · rcases (ih k (Nat.lt_succ_self k)).2
-              { globals := s.globals, locals := some (ps.zip vs), declGlobal := declaredGlobals b, out := s.out, imports := s.imports } b with hb | hb
+              { globals := s.globals, locals := some (ps.zip vs), declGlobal := declaredGlobals b, out := s.out, imports := s.imports, localNames := ps ++ canonNames bound } b with hb | hb
             · left; simp only [hb, asCall]
             · right; simp only [hb]
 
@@ -386,41 +491,6 @@ theorem excKind_map (f : Expr → Expr) (hn : ∀ e, nameOf (f e) = nameOf e)
         intro x hx
         cases x <;> first | rfl | simp [isTuple] at hx
       rw [key e he', key (f e) hfe, hn e]
-
-theorem forRange_eq (tg it : Expr) :
-    forRange tg it = (match nameOf tg, asNameCall it with
-      | some (x, _), some (f, _, [e]) => if f == "range" then some (x, e) else none
-      | _, _ => none) := by
-  cases tg <;> cases it <;> try rfl
-  rename_i x c f args kws
-  cases f <;> try rfl
-  cases kws with
-  | cons k ks =>
-    match args with
-    | [] => rfl
-    | [e] => rfl
-    | _ :: _ :: _ => rfl
-  | nil =>
-    match args with
-    | [] => rfl
-    | [e] => rfl
-    | _ :: _ :: _ => rfl
-
-theorem forRange_map (m : ExprMap) (h : ExprOK m) (tg it : Expr) :
-    forRange (m.e tg) (m.e it) = (forRange tg it).map (fun p => (p.1, m.e p.2)) := by
-  rw [forRange_eq, forRange_eq, nameOf_map m h tg, asNameCall_map m h it]
-  cases nameOf tg with
-  | none => rfl
-  | some p =>
-    obtain ⟨x, c⟩ := p
-    cases asNameCall it with
-    | none => rfl
-    | some q =>
-      obtain ⟨f, c2, args⟩ := q
-      match args with
-      | [] => rfl
-      | [e] => simp only [Option.map_some, List.map]; split <;> rfl
-      | _ :: _ :: _ => rfl
 
 /-- `for` loops refine when body and `else` refine at every fuel up to the current one -/
 theorem execFor_le (ft ft' : FTab) (body body' orelse orelse' : List Stmt) (N : Nat)
